@@ -216,8 +216,9 @@ def _side_conditions(program, res, eng):
             # the right side must be a set of string constants (possibly through a local)
             r = c.comparators[0]
             if isinstance(r, ast.Name):
+                rname = r.id
                 for st in ast.walk(sj.node):
-                    if isinstance(st, ast.Assign) and isinstance(st.targets[0], ast.Name) and st.targets[0].id == r.id:
+                    if isinstance(st, ast.Assign) and isinstance(st.targets[0], ast.Name) and st.targets[0].id == rname and isinstance(st.value, (ast.Set, ast.List, ast.Tuple)):
                         r = st.value
             if isinstance(r, (ast.Set, ast.List, ast.Tuple)) and all(isinstance(e, ast.Constant) and isinstance(e.value, str)
                                                                      and re.fullmatch(r"[A-Za-z ]+", e.value) for e in r.elts):
